@@ -134,6 +134,12 @@ pub struct StepRecord {
     pub ticks: u64,
     /// simulated process death happened inside this step: (tick index, label)
     pub crashed_at: Option<(u64, String)>,
+    /// tracing records emitted by the library during this step (only with `capture_logs`)
+    #[serde(skip)]
+    pub logs: Vec<String>,
+    /// Debug rendering of the value the call returned (only with `capture_logs`)
+    #[serde(skip)]
+    pub debug_out: String,
 }
 
 #[derive(Debug, Clone, Serialize)]
@@ -190,6 +196,8 @@ pub struct World {
     /// count storage ticks per step (tick hook installed around every step)
     pub count_ticks: bool,
     pub last_crash: Option<(u32, usize, u64, String)>,
+    /// Debug + Display rendering of the last returned value (C14)
+    pub last_debug: String,
 }
 
 #[derive(Debug, Clone, Serialize, PartialEq, Eq)]
@@ -266,6 +274,7 @@ impl World {
             arm_crash: None,
             count_ticks: false,
             last_crash: None,
+            last_debug: String::new(),
         }
     }
 
@@ -572,6 +581,18 @@ impl World {
         rec.rollback = rb_after > rb_before;
         rec.ticks = ticks;
         rec.crashed_at = crashed;
+        if self.capture_logs {
+            rec.logs = crate::logcap::drain();
+            rec.debug_out = std::mem::take(&mut self.last_debug);
+            if std::env::var("MDK_SIM_CAPTURE").is_ok() {
+                for l in &rec.logs {
+                    self.log.push(format!("      LOG {l}"));
+                }
+                if !rec.debug_out.is_empty() {
+                    self.log.push(format!("      OUT {}", rec.debug_out));
+                }
+            }
+        }
         if let Some(last) = self.history.last_mut() {
             last.rollback = rec.rollback;
             last.ticks = rec.ticks;
@@ -602,6 +623,8 @@ impl World {
             post_state,
             ticks: 0,
             crashed_at: None,
+            logs: vec![],
+            debug_out: String::new(),
         };
         self.log.push(format!(
             "#{} t={} n{} {:?} -> {} | {}",
@@ -942,6 +965,12 @@ impl World {
     /// Hand `event` to `node`'s process_message and play the application layer on the result.
     pub fn deliver_event(&mut self, step: &Step, node: usize, event: &Event, pe: Option<&PubEvent>) -> Outcome {
         let r = with_mdk!(self.nodes[node].mdk(), m => m.process_message(event));
+        if self.capture_logs {
+            self.last_debug = match &r {
+                Ok(v) => format!("{v:?}"),
+                Err(e) => format!("{e:?} || {e}"),
+            };
+        }
         let (class, text) = result_class(&r);
         let mut o = Outcome::new(class, text);
         if let Some(pe) = pe {
